@@ -307,6 +307,13 @@ func normaliseRound(repoDir string, orig, cur *packages.Package, overlay map[str
 			}
 		}
 	}
+	if os.Getenv("NORM_DEBUG") != "" {
+		for obj, fd := range in.decls {
+			if !base[declKey(fd)] {
+				fmt.Fprintf(os.Stderr, "round %d: %s cand=%v why=%q\n", round, declKey(fd), in.cand[obj], in.why[obj])
+			}
+		}
+	}
 	// recursion: a candidate on a cycle is not inlined
 	var reach func(from, target *types.Func, seen map[*types.Func]bool) bool
 	reach = func(from, target *types.Func, seen map[*types.Func]bool) bool {
@@ -577,9 +584,12 @@ func unsuitableBody(fd *ast.FuncDecl, info *types.Info) string {
 					reason = "defers"
 				}
 			case *ast.LabeledStmt:
-				reason = "has labels"
+				// (labels the normaliser itself left in an earlier round are renamed per copy)
+				if !strings.HasPrefix(x.Label.Name, "_inl") && !strings.HasPrefix(x.Label.Name, "_unr") {
+					reason = "has labels"
+				}
 			case *ast.BranchStmt:
-				if x.Tok == token.GOTO {
+				if x.Tok == token.GOTO && (x.Label == nil || (!strings.HasPrefix(x.Label.Name, "_inl") && !strings.HasPrefix(x.Label.Name, "_unr"))) {
 					reason = "has goto"
 				}
 			case *ast.CallExpr:
